@@ -1,4 +1,5 @@
 From Coq Require Import ZArith QArith List.
 From Coq Require Import ExtrOcamlBasic ExtrOcamlString.
-From OsmtV.Th Require Import DLParse.
-Extraction "tsolver_model.ml" parseRef is_dl_atomb linearb accepts_in_logic.
+From OsmtV.Th Require Import DLParse BoundStack.
+Extraction "tsolver_model.ml" parseRef is_dl_atomb linearb accepts_in_logic
+  bs_init assert_bound assert_conflicts backtrack cur_bound lists trace limits.
